@@ -9,9 +9,11 @@ _SUBJECT = ('real lexer + generated parser + VariableValidator (the decision lin
             'script and must agree) against an oracle written from the property statement, walking the generated tree in text order: ')
 
 
+# the test path is spelled in full: the first test of the module does the enumeration, and the diagnostics `parse` prints to stderr for the
+# sampled rejected scripts split its `test .. ok` line; the runner then looks the test up in the `successes:` / `failures:` lists by its full name
 def _job(suffix, test, what):
     native('C23.scope.' + suffix, ['C23'], 'bounded', _BOUND, 'aquavm-air-parser', 'crates/air-lib/air-parser/src/parser/air_parser.rs',
-           'validator_scope.rs', 'verif_native_validator_scope::' + test, what=_SUBJECT + what)
+           'validator_scope.rs', 'parser::air_parser::verif_native_validator_scope::' + test, what=_SUBJECT + what)
 
 
 _job('undefined', 'scope_undefined',
